@@ -248,26 +248,39 @@ def seed (sch : Schema) (s : Sess) (cls : Nat) (pk : KeyVal) : Sess × Res :=
   | .error e => (s, { err := some e })
   | .ok (s1, o) => (s1, { yield := some o })
 
-/-- `Entity._db_set_(avdict)`; `rowv a = notLoaded` = attribute not in `avdict` -/
+/-- first loop of `_db_set_`: the entries of `avdict` that survive — equal to the known database value (or any known
+    value when unpickling) are dropped; `rowv a = notLoaded` = attribute not in `avdict` -/
+def dbEff (sch : Schema) (ob : Obj) (rowv : Nat → Slot) (unpickling : Bool) (a : Nat) : Bool :=
+  decide (a < sch.nattrs) && decide (rowv a ≠ .notLoaded) &&
+    !(decide (ob.dbvals a ≠ .notLoaded) && (unpickling || decide (ob.dbvals a = rowv a)))
+
+/-- `new_vals` merged into `_vals_`: `if wbits & bit: del new_vals[attr]` -/
+def dbNewVals (sch : Schema) (ob : Obj) (rowv : Nat → Slot) (u : Bool) : Nat → Slot :=
+  fun a => if dbEff sch ob rowv u a && !ob.wbits a then rowv a else ob.vals a
+
+/-- the object when the second loop stops at attribute `a0` (read bit set): `_dbvals_` of the earlier ones is overwritten -/
+def dbObjStop (sch : Schema) (ob : Obj) (rowv : Nat → Slot) (u : Bool) (a0 : Nat) : Obj :=
+  { ob with isSeed := false, dbvals := fun a => if dbEff sch ob rowv u a && decide (a < a0) then rowv a else ob.dbvals a }
+
+/-- the object after the second loop: `obj._dbvals_[attr] = new_dbval` -/
+def dbObjDb (sch : Schema) (ob : Obj) (rowv : Nat → Slot) (u : Bool) : Obj :=
+  { ob with isSeed := false, dbvals := fun a => if dbEff sch ob rowv u a then rowv a else ob.dbvals a }
+
+/-- `Entity._db_set_(avdict)` -/
 def dbSet (sch : Schema) (s : Sess) (o : ObjId) (rowv : Nat → Slot) (unpickling : Bool) : Sess × Option Err :=
   let ob := s.obj o
-  -- first loop: entries equal to the known database value (or any known value when unpickling) are dropped
-  let eff : Nat → Bool := fun a => decide (a < sch.nattrs) && decide (rowv a ≠ .notLoaded) &&
-      !(decide (ob.dbvals a ≠ .notLoaded) && (unpickling || decide (ob.dbvals a = rowv a)))
-  let ob0 := { ob with isSeed := false }
-  match (List.range sch.nattrs).find? (fun a => eff a && ob.rbits a) with
+  match (List.range sch.nattrs).find? (fun a => dbEff sch ob rowv unpickling a && ob.rbits a) with
   | some a0 =>
-      -- `if rbits & bit: throw(UnrepeatableReadError)`; `_dbvals_` of the earlier attributes is already overwritten
-      let ob' := { ob0 with dbvals := fun a => if eff a && decide (a < a0) then rowv a else ob.dbvals a }
-      ({ s with obj := setObj s.obj o ob' }, some (if ob.dbvals a0 = .notLoaded then .assertion else .unrepeatable))
+      -- `if rbits & bit: throw(UnrepeatableReadError)` (`assert old_dbval is not NOT_LOADED` first)
+      ({ s with obj := setObj s.obj o (dbObjStop sch ob rowv unpickling a0) },
+       some (if ob.dbvals a0 = .notLoaded then .assertion else .unrepeatable))
   | none =>
-      let ob1 := { ob0 with dbvals := fun a => if eff a then rowv a else ob.dbvals a }
-      let newv : Nat → Bool := fun a => eff a && !ob.wbits a            -- `if wbits & bit: del new_vals[attr]`
-      let vals' : Nat → Slot := fun a => if newv a then rowv a else ob.vals a
       -- `db_update_simple_index` for the unique attributes, then `db_update_composite_index`: NO undo list
-      let r := updKeysGo o (kv sch ob.vals) (kv sch vals') (allKeys sch) ⟨s.ixs, [], true⟩
-      if r.ok then ({ s with obj := setObj s.obj o { ob1 with vals := vals' }, ixs := r.ixs }, none)   -- `obj._vals_.update(new_vals)`
-      else ({ s with obj := setObj s.obj o ob1, ixs := r.ixs }, some .integrity)
+      let r := updKeysGo o (kv sch ob.vals) (kv sch (dbNewVals sch ob rowv unpickling)) (allKeys sch) ⟨s.ixs, [], true⟩
+      if r.ok then
+        ({ s with obj := setObj s.obj o { dbObjDb sch ob rowv unpickling with vals := dbNewVals sch ob rowv unpickling },
+                  ixs := r.ixs }, none)                                  -- `obj._vals_.update(new_vals)`
+      else ({ s with obj := setObj s.obj o (dbObjDb sch ob rowv unpickling), ixs := r.ixs }, some .integrity)
 
 /-- `entity._set_rbits(objects, attrs)` for one object -/
 def setRbits (ob : Obj) (attrs : List Nat) : Obj :=
@@ -298,6 +311,17 @@ def lookupChange (changes : List (Nat × Option Int)) (a : Nat) : Option (Option
   | [] => none
   | (a', v) :: r => if a' = a then some v else lookupChange r a
 
+/-- `_vals_` after the assignment -/
+def chVals (ob : Obj) (changes : List (Nat × Option Int)) : Nat → Slot :=
+  fun a => match lookupChange changes a with
+    | some v => .val v
+    | none => ob.vals a
+
+/-- status / write bits after the assignment (`created` objects have no write bits and keep their status) -/
+def chObj (ob : Obj) (changes : List (Nat × Option Int)) : Obj :=
+  if ob.isNew then { ob with vals := chVals ob changes }
+  else { ob with vals := chVals ob changes, wbits := fun a => ob.wbits a || (lookupChange changes a).isSome, status := .modified }
+
 /-- `Attribute.__set__` (one change) and `Entity.set(**kwargs)` (several): status / write bits, the key loop with its
     undo list, then `_vals_.update` -/
 def setAttrs (sch : Schema) (s : Sess) (o : ObjId) (changes : List (Nat × Option Int)) : Sess × Res :=
@@ -306,15 +330,9 @@ def setAttrs (sch : Schema) (s : Sess) (o : ObjId) (changes : List (Nat × Optio
     let ob := s.obj o
     if ob.status.isDel then (s, { err := some .deletedObject })
     else
-      let vals' : Nat → Slot := fun a => match lookupChange changes a with
-        | some v => .val v
-        | none => ob.vals a
-      let touched : Nat → Bool := fun a => (lookupChange changes a).isSome
-      let obM : Obj := if ob.isNew then ob else
-        { ob with wbits := fun a => ob.wbits a || touched a, status := .modified }
       let queueM := if ob.isNew || ob.status = .modified then s.queue else s.queue ++ [o]
-      let r := updKeysGo o (kv sch ob.vals) (kv sch vals') (allKeys sch) ⟨s.ixs, [], true⟩
-      if r.ok then ({ s with obj := setObj s.obj o { obM with vals := vals' }, ixs := r.ixs, queue := queueM }, {})
+      let r := updKeysGo o (kv sch ob.vals) (kv sch (chVals ob changes)) (allKeys sch) ⟨s.ixs, [], true⟩
+      if r.ok then ({ s with obj := setObj s.obj o (chObj ob changes), ixs := r.ixs, queue := queueM }, {})
       else
         -- `except: for undo_func in reversed(undo_funcs): undo_func()`: status, wbits, objects_to_save and the indexes go back
         ({ s with ixs := undoKeys o r.trail r.ixs }, { err := some .cacheIndex })
